@@ -23,6 +23,7 @@ namespace Srtla.SysInv
 open Srtla Srtla.Gen Srtla.Conn Srtla.Select Srtla.Rtt Srtla.Link Srtla.Sys Scalar
 
 variable {F : Type} [Scalar F]
+variable {fa : List (Nat × Nat)}
 
 /-! ## 1. Vocabulary -/
 
@@ -269,7 +270,7 @@ section traverse
 variable {now : Nat} {classic : Bool} {P : FLink F → Prop}
 
 theorem fwdLink_P (hc : Closed now .client classic P) (l : FLink F) (pkt : Link.Bytes) (seq : Option Nat) (fn : List Nat)
-    (hs : SeqOk seq) (h : P l) : P (Hk.fwdLink l pkt seq now fn).1 := by
+    (hs : SeqOk seq) (h : P l) : P (Hk.fwdLink fa l pkt seq now fn).1 := by
   have h1 := hc.queue rfl l pkt seq hs h
   unfold Hk.fwdLink
   split
@@ -289,7 +290,7 @@ theorem forwardVia_all (hc : Closed now .client classic P) (s : Sys F) (sel : Na
     exact all_setAt h _ (fwdLink_P hc l pkt seq _ hs (all_get h hl))
 
 theorem probeLink_P (hc : Closed now .client classic P) (l : FLink F) (pkt : Link.Bytes) (seq : Option Nat) (fn : List Nat)
-    (hs : SeqOk seq) (h : P l) : P (Hk.probeLink l pkt seq now fn).1 := by
+    (hs : SeqOk seq) (h : P l) : P (Hk.probeLink fa l pkt seq now fn).1 := by
   have h1 := hc.soft _ _ (soft_stallProbeDue now l) h
   unfold Hk.probeLink
   split
@@ -298,7 +299,7 @@ theorem probeLink_P (hc : Closed now .client classic P) (l : FLink F) (pkt : Lin
 
 theorem stallProbesGo_all (hc : Closed now .client classic P) (pkt : Sys.Bytes) (seq : Option Nat) (sel : Nat) (hs : SeqOk seq)
     (ls : List (FLink F)) (i : Nat) (fn : List Nat) (h : All P ls) :
-    All P (stallProbesGo pkt seq now sel ls i fn).1 := by
+    All P (stallProbesGo fa pkt seq now sel ls i fn).1 := by
   induction ls generalizing i fn with
   | nil => intro l hl; simp [stallProbesGo] at hl
   | cons l rest ih =>
@@ -316,7 +317,7 @@ theorem stallProbesGo_all (hc : Closed now .client classic P) (pkt : Sys.Bytes) 
       · exact ih _ _ hr x hx
 
 theorem flushGo_all (hc : Closed now .flush classic P) (ls : List (FLink F)) (fn : List Nat) (h : All P ls) :
-    All P (flushGo now ls fn).1 := by
+    All P (flushGo fa now ls fn).1 := by
   induction ls generalizing fn with
   | nil => intro l hl; simp [flushGo] at hl
   | cons l rest ih =>
@@ -678,6 +679,7 @@ def evNow : Ev → Nat
   | .setCfg _ => 0
   | .crit _ => 0
   | .failNext _ => 0
+  | .failAfter _ _ => 0
   | .failBind _ => 0
   | .stamp _ _ _ _ _ => 0
   | .syncTimeout => 0
@@ -694,6 +696,7 @@ def evArm : Ev → Option Arm
   | .setCfg _ => none
   | .crit _ => none
   | .failNext _ => none
+  | .failAfter _ _ => none
   | .failBind _ => none
   | .stamp _ _ _ _ _ => some .hk
   | .syncTimeout => some .hk
@@ -727,6 +730,7 @@ theorem step_all {P : FLink F → Prop} (s : Sys F) (e : Ev)
   | setCfg cfg => exact h
   | crit d => exact h
   | failNext cid => exact h
+  | failAfter cid kfa => exact h
   | failBind cid => exact h
   | stamp idx weak ld ccb cct =>
     intro l' hl'
